@@ -279,6 +279,11 @@ def match_cases(tier, seed):
              ('compose', ((('slice', w1, 0, 16), 0, 16), (('slice', w2, 16, 32), 16, 32))),
              ('compose', ((('slice', w1, 0, 16), 0, 16), (('slice', w1, 16, 32), 16, 32))),
              ('compose', ((('slice', a, 0, 16), 0, 16), (('slice', w1, 16, 32), 16, 32))),
+             # whole wildcards as concatenation slots: only the slot boundaries tell instances from non-instances
+             ('compose', ((('id', 'WA', 16), 0, 16), (('id', 'WB', 16), 16, 32))),
+             ('compose', ((('id', 'WC', 8), 0, 8), (('id', 'WA', 16), 8, 24), (('id', 'WD', 8), 24, 32))),
+             ('compose', ((('id', 'WA', 16), 0, 16), (('slice', w1, 16, 32), 16, 32))),
+             ('compose', ((('id', 'WC', 8), 0, 8), (('slice', a, 8, 32), 8, 32))),
              # a wildcard occurring twice, at least once inside a compound sub-term
              ('op', '*', (('op', '+', (w1, b)), w1)), ('op', '^', (('mem', ('op', '+', (w1, K)), 32), w1)), ('op', '+', (('op', '-', (w1,)), ('op', '&', (w1, w2)))),
              ('cond', ('op', '==', (w1, K)), w1, w2), ('op', '-', (('slice', ('op', '+', (w1, w2)), 0, 32) if False else ('op', '<<', (w1, K)), ('op', '>>', (w1, K1)))),
@@ -291,6 +296,11 @@ def match_cases(tier, seed):
             bd = {'W1': binds[(k * 3) % len(binds)], 'W2': binds[(k * 3 + 1) % len(binds)], 'W3': binds[(k * 3 + 2) % len(binds)]}
             if tier == 'thorough':
                 bd = {'W1': rnd.choice(binds), 'W2': rnd.choice(binds), 'W3': rnd.choice(binds)} if k >= 3 else bd
+            h, q = ('id', 'h', 16), ('id', 'q', 8)
+            narrow = [{'WA': h, 'WB': ('int', 3, 16), 'WC': q, 'WD': ('slice', b, 8, 16)},
+                      {'WA': ('slice', a, 8, 24), 'WB': h, 'WC': ('int', 3, 8), 'WD': q},
+                      {'WA': ('op', '+', (h, ('int', 3, 16))), 'WB': ('slice', a, 0, 16), 'WC': ('slice', h, 4, 12), 'WD': ('op', '^', (q, ('int', 3, 8)))}]
+            bd.update(narrow[k % 3])
             cases.append(('match', p, bd))
     return cases
 
@@ -333,6 +343,29 @@ def wild_names(p, acc=None):
     elif p[0] == 'compose':
         for x in p[1]:
             wild_names(x[0], acc)
+    return acc
+
+
+def wild_sizes(p, acc=None):
+    """width of every wildcard identifier of the pattern"""
+    if acc is None:
+        acc = {}
+    if p[0] == 'id':
+        if p[1].startswith('W'):
+            acc[p[1]] = p[2]
+    elif p[0] == 'mem':
+        wild_sizes(p[1], acc)
+    elif p[0] == 'op':
+        for x in p[2]:
+            wild_sizes(x, acc)
+    elif p[0] == 'cond':
+        for x in p[1:]:
+            wild_sizes(x, acc)
+    elif p[0] == 'slice':
+        wild_sizes(p[1], acc)
+    elif p[0] == 'compose':
+        for x in p[1]:
+            wild_sizes(x[0], acc)
     return acc
 
 
@@ -402,6 +435,22 @@ def mutants(p, e_shape):
         out.append(('bounds-changed', ('slice', e_shape[1], e_shape[2], e_shape[3] + 8)))
     if e_shape[0] == 'compose' and len(e_shape[1]) == 2:
         out.append(('arity+1', ('compose', e_shape[1] + ((('id', 'x8', 8), 32, 40),))))
+    if e_shape[0] == 'compose':
+        # same number of slots, same total width, one cut moved (every slot keeps one of its two boundaries) or all cuts moved
+        cuts = [x[1] for x in e_shape[1]] + [e_shape[1][-1][2]]
+        variants = []
+        for i in range(1, len(cuts) - 1):
+            for d in (4, -4):
+                c2 = list(cuts)
+                c2[i] += d
+                if c2[i - 1] < c2[i] < c2[i + 1]:
+                    variants.append(('cut%d%+d' % (i, d), c2))
+        if len(cuts) > 3:
+            c2 = [cuts[0]] + [c + 4 for c in cuts[1:-1]] + [cuts[-1]]
+            if all(c2[j] < c2[j + 1] for j in range(len(c2) - 1)):
+                variants.append(('all-cuts+4', c2))
+        for tag, c2 in variants:
+            out.append(('cut-changed:' + tag, ('compose', tuple((('id', 'u%d_%d' % (j, c2[j + 1] - c2[j]), c2[j + 1] - c2[j]), c2[j], c2[j + 1]) for j in range(len(c2) - 1)))))
     return out
 
 
@@ -434,6 +483,8 @@ def check_match(item, res):
             return ('cond',) + tuple(shift(x) for x in s[1:])
         if k == 'slice':
             return ('slice', shift(s[1]), s[2], s[3])
+        if k == 'compose':
+            return ('compose', tuple((shift(x[0]), x[1], x[2]) for x in s[1]))
         return s
     bd = {k: shift(v) for k, v in bd.items()}
     e_shape = subst_shape(pat_n, bd)
@@ -445,7 +496,8 @@ def check_match(item, res):
         consts = c05.sym_consts(('op', 'tuple', (pat_n, e_shape)))
         e = G.build(e_shape, consts, X, M)
         m = G.build(pat_n, consts, X, M)
-        tks = [X.ExprId(w, 32) for w in wn]
+        ws = wild_sizes(pat_n)
+        tks = [X.ExprId(w, ws.get(w, 32)) for w in wn]
         try:
             r = _nb(X.MatchExpr(e, m, tks))
         except PathAbort:
@@ -482,8 +534,13 @@ def check_match(item, res):
             if r2 is not False:
                 # is it really a non-instance?  (substituting the returned bindings must not reproduce e2)
                 rr = {} if r2 is True else dict(r2)
-                back2 = m.replace_expr(rr)
-                eq2 = c13.struct_eq(back2, e2)
+                try:
+                    back2 = m.replace_expr(rr)
+                    eq2 = c13.struct_eq(back2, e2)
+                except PathAbort:
+                    raise
+                except Exception:
+                    eq2 = False      # the bindings do not even build an expression
                 if eq2 is True:
                     continue
                 if eq2 is not False:
@@ -614,7 +671,7 @@ if D['kind'] in ('rs', 'aff'):
                     s.pop()
 else:
     for k, size in G.ints_of(('op', 't', (D['pat'], D['e']))): consts.setdefault(k, 0)
-    e = G.build(D['e'], consts, X, M); m = G.build(D['pat'], consts, X, M); tks = [X.ExprId(w, 32) for w in D['wild']]
+    e = G.build(D['e'], consts, X, M); m = G.build(D['pat'], consts, X, M); ws = c16.wild_sizes(D['pat']); tks = [X.ExprId(w, ws.get(w, 32)) for w in D['wild']]
     what = D['what']
     print('e =', e, ' pattern =', m, ' wildcards =', D['wild'])
     try:
